@@ -82,12 +82,16 @@ class SimStream(io.BufferedIOBase):
     def read(self, n=-1):
         if n is None or n < 0:
             return self._b.read()
-        if self._short and n > 1:
-            self._n += 1
-            # deterministic pseudo-random shortening
-            h = (self._short * 2654435761 + self._n * 40503) & 0xFFFFFFFF
-            if h % 3 == 0:
-                n = 1 + (h >> 8) % n
+        if self._short:
+            pos = self._b.tell()
+            remaining = len(self._b.getbuffer()) - pos
+            avail = min(n, remaining)
+            if avail > 1:
+                self._n += 1
+                # deterministic pseudo-random shortening relative to what is left
+                h = (self._short * 2654435761 + self._n * 40503) & 0xFFFFFFFF
+                if (h >> 5) % 4 != 0:
+                    n = 1 + (h >> 8) % (avail - 1)
         return self._b.read(n)
 
     def read1(self, n=-1):
